@@ -123,9 +123,9 @@ EXTRA_SETS: Dict[str, Dict[str, str]] = {
     # map fields whose names protoc and the plugin case differently; a map next to a field called <map>_value; types
     # nested in messages whose class name needs the keyword / identifier guard
     "odd_map_and_nested_names": {
-        "om_maps.proto": _P3 + "package vfodd.maps;\nmessage V { int32 x = 1; string s = 2; }\nmessage M { map<string, int32> HTTPStatus = 1; map<string, V> userID = 2; "
+        "om_maps.proto": _P3 + "package vfodd.maps;\nmessage V { int32 x = 1; string s = 2; }\nmessage W { string t = 1; repeated int32 u = 2; }\nmessage M { map<string, int32> HTTPStatus = 1; map<string, V> userID = 2; "
                          "map<int32, string> APIKeys = 3; map<string, V> sha256sum = 4; map<string, bool> md5sums = 5; map<string, V> oauth2scopes = 6; "
-                         "map<string, V> items = 7; V items_value = 8; map<string, V> items_entry = 9; V items_key = 10; }\n",
+                         "map<string, V> items = 7; W items_value = 8; map<string, W> items_entry = 9; W items_key = 10; map<int32, W> more = 11; V more_value = 12; }\n",
         "om_nested.proto": _P3 + "package vfodd.nested;\nmessage Holder { message _1st { int32 x = 1; } _1st first = 1; repeated _1st firsts = 2; }\n"
                            "message None { message Inner { int32 y = 1; } Inner inner = 1; map<string, Inner> inners = 2; }\n"
                            "message True { enum Kind { KIND_ZERO = 0; KIND_ONE = 1; } Kind k = 1; message Deep { message Deeper { int32 z = 1; } Deeper d = 1; } Deep deep = 2; }\n"
